@@ -196,6 +196,21 @@ pub fn build(cfg: &ArcCfg, seed: u64, path: &Path) -> Result<Built, String> {
         }
         break;
     }
+    if cfg.version == 43 {
+        // a version-3 archive with the extended 208-byte header and its digest block (the header parser knows this shape):
+        // the builder's V4 output with the version field rewritten, no HET/BET tables, header digest re-sealed
+        use md5::{Digest, Md5};
+        let mut bytes = std::fs::read(path).map_err(|e| e.to_string())?;
+        if bytes.len() < 208 || u32::from_le_bytes([bytes[4], bytes[5], bytes[6], bytes[7]]) != 208 {
+            return Err("V4 archive without a 208-byte header".into());
+        }
+        bytes[0x0C] = 2;
+        bytes[0x34..0x44].fill(0);
+        bytes[0x5C..0x6C].fill(0);
+        let digest: [u8; 16] = Md5::digest(&bytes[..192]).into();
+        bytes[192..208].copy_from_slice(&digest);
+        std::fs::write(path, &bytes).map_err(|e| e.to_string())?;
+    }
     let ao = cfg.prefix as usize;
     if ao != 0 {
         // embed the finished archive behind `prefix` bytes of foreign data (no MPQ magic on any 512-byte boundary of it)
@@ -251,7 +266,8 @@ pub fn build(cfg: &ArcCfg, seed: u64, path: &Path) -> Result<Built, String> {
         }
         cur += files[i].stored;
     }
-    if cur != data_end {
+    // (version code 43: the HET/BET tables of the V4 build are still there, unreferenced, between the blocks and the tables)
+    if cur != data_end && !(cfg.version == 43 && cur < data_end) {
         return Err(format!("region map: blocks end at {cur}, tables start at {data_end}"));
     }
     // ---- regions
@@ -857,6 +873,19 @@ fn specs(thorough: bool) -> Vec<Spec> {
     for &region in sregs {
         for &ck in cks {
             v.push(Spec { kind: "weak-signature", cfg: sgp.clone(), file: NOFILE, region, ck, n: 0 });
+        }
+    }
+    // K8 the digest block in a version-3 archive with the extended header (version code 43 = "built as 4, labelled 3")
+    let v43: &[bool] = if thorough { &[false, true] } else { &[false] };
+    for &enc in v43 {
+        let cfg = ArcCfg { version: 43, shift: 0, method: 0x02, enc, attr: 1, tblcomp: false, signed: 0, prefix: 0 };
+        for &region in &["v4_header", "v4_header_digest", "hash_table", "block_table"] {
+            for &ck in cks {
+                v.push(Spec { kind: "v4-digest", cfg: cfg.clone(), file: NOFILE, region, ck, n: 0 });
+            }
+        }
+        for &region in &["hash_table", "block_table"] {
+            v.push(Spec { kind: "v4-digest-paired", cfg: cfg.clone(), file: NOFILE, region, ck: "x01", n: 0 });
         }
     }
     v
